@@ -14,6 +14,11 @@ with Biopython once per distinct string):
   genomic_sequence     GenomicSequence (dict backend, indexed-FASTA backend, Genome.read_sequence) indexed with
                        stranded intervals (extract_intervals(Bed6, stranded=True), GenomicIntervals with strand,
                        Genome.get_intervals(stranded=True)) and unstranded (always forward).
+                       Contig order (enum_genomic_order): file-backed genomes whose genome-context contig order
+                       differs from the FASTA record order (underscore contigs moved to the end, sort_names=True,
+                       chrom.sizes file / dict in another order, subsets); the oracle slices the file's own records.
+  (added scopes)       reverse_complement: every row-length vector with <= 5 rows of length 0..4 (enum_rc_many_rows);
+                       strand_specific: every interval-length vector in {0..3}^4 (^5) x strand patterns.
   translate            translate_dna_to_protein on rows whose lengths are multiples of 3: all 64 codons in every
                        case pattern, every concatenation of <= 2 (thorough: 3) codons, lists of rows with
                        0..3 codons each; output row r has len(row r)/3 symbols, codon by codon, stop = '*'.
@@ -814,7 +819,7 @@ def enum_genomic_order(col, tier, tmp):
             for path, ivs in order_interval_lists(spec, quick):
                 check_genomic_order(col, g, path, ivs)
             inc = order_included(spec)
-            for i in range(4 if quick else 40):
+            for i in range(4 if quick else 12):
                 ivs = []
                 for _ in range(rng.randint(3, 5)):
                     name = rng.choice(inc)
